@@ -1,0 +1,24 @@
+//go:build verif && !windows
+
+package daemon
+
+import (
+	"os"
+	"time"
+)
+
+// verifPause is a schedule-control point for the verification harness in /verif (build tag
+// "verif"). It does nothing unless GLB_VERIF_PAUSE names this point; then it waits until the file
+// named by GLB_VERIF_PAUSE_FILE exists (or 10 s have passed).
+func verifPause(point string) {
+	if os.Getenv("GLB_VERIF_PAUSE") != point {
+		return
+	}
+	file := os.Getenv("GLB_VERIF_PAUSE_FILE")
+	for i := 0; i < 1000; i++ {
+		if _, err := os.Stat(file); err == nil {
+			return
+		}
+		time.Sleep(10 * time.Millisecond)
+	}
+}
